@@ -22,6 +22,10 @@ type Term []int
 func (t Term) String() string {
 	var sb strings.Builder
 	for _, l := range t {
+		if l >= 27 { // letters beyond 'z': supplementary-plane runes (four bytes in UTF-8)
+			sb.WriteRune(rune(0x10348 + l - 27))
+			continue
+		}
 		sb.WriteByte(byte('a' + l - 1))
 	}
 	return sb.String()
